@@ -109,7 +109,7 @@ public:
      * @param model The @c ModelPtr to update.
      * @param node The @c XmlNodePtr to parse and update the model with.
      */
-    void loadEncapsulation(const ModelPtr &model, const XmlNodePtr &node);
+    void loadEncapsulation(const ModelPtr &model, const XmlNodePtr &node, NameList &usedNames);
 
     /**
      * @brief Recursively update the @p model with the encapsulation parsed from the @p node.
@@ -120,10 +120,11 @@ public:
      * @param model The @c ModelPtr to update.
      * @param node The @c XmlNodePtr to parse and update the model with.
      * @param usedNames List of components already used in loading component hierarchy.
+     * @param isChild @c true if the @p node is the child of another component_ref, @c false otherwise.
      *
      * @return A @c ComponentPtr which is the root of the component hierarchy.
      */
-    ComponentPtr loadComponentRef(const ModelPtr &model, const XmlNodePtr &node, NameList &usedNames);
+    ComponentPtr loadComponentRef(const ModelPtr &model, const XmlNodePtr &node, NameList &usedNames, bool isChild);
 
     /**
      * @brief Update the @p import source with attributes parsed from @p node and add any imported
@@ -598,8 +599,14 @@ void Parser::ParserImpl::loadModel(const ModelPtr &model, const std::string &inp
         childNode = childNode->next();
     }
 
-    if (!encapsulationNodes.empty()) {
-        loadEncapsulation(model, encapsulationNodes.at(0));
+    NameList usedComponentRefNames;
+    if (mParsing1XVersion) {
+        // CellML 1.0 and CellML 1.1 allow the encapsulation hierarchy to be spread over any number of groups.
+        for (const auto &encapsulationNode : encapsulationNodes) {
+            loadEncapsulation(model, encapsulationNode, usedComponentRefNames);
+        }
+    } else if (!encapsulationNodes.empty()) {
+        loadEncapsulation(model, encapsulationNodes.at(0), usedComponentRefNames);
         if (encapsulationNodes.size() > 1) {
             auto issue = Issue::IssueImpl::create();
             issue->mPimpl->setDescription("Model '" + model->name() + "' has more than one encapsulation element.");
@@ -1417,7 +1424,7 @@ void Parser::ParserImpl::loadConnection(const ModelPtr &model, const XmlNodePtr 
     }
 }
 
-ComponentPtr Parser::ParserImpl::loadComponentRef(const ModelPtr &model, const XmlNodePtr &node, NameList &usedNames)
+ComponentPtr Parser::ParserImpl::loadComponentRef(const ModelPtr &model, const XmlNodePtr &node, NameList &usedNames, bool isChild)
 {
     ComponentPtr parentComponent = nullptr;
     std::string parentComponentName;
@@ -1428,7 +1435,11 @@ ComponentPtr Parser::ParserImpl::loadComponentRef(const ModelPtr &model, const X
         if (attribute->isType("component")) {
             parentComponentName = attribute->value();
 
-            if (std::find(usedNames.begin(), usedNames.end(), parentComponentName) == usedNames.end()) {
+            // In CellML 1.0 and CellML 1.1 a component that is a child in one place may head its own sub-tree in another place,
+            // only a second mention as a child is an error.
+            if (mParsing1XVersion && !isChild) {
+                // Nothing to check.
+            } else if (std::find(usedNames.begin(), usedNames.end(), parentComponentName) == usedNames.end()) {
                 usedNames.emplace_back(parentComponentName);
             } else {
                 auto issue = Issue::IssueImpl::create();
@@ -1465,7 +1476,7 @@ ComponentPtr Parser::ParserImpl::loadComponentRef(const ModelPtr &model, const X
         issue->mPimpl->mItem->mPimpl->setEncapsulation(model);
         issue->mPimpl->setReferenceRule(Issue::ReferenceRule::COMPONENT_REF_COMPONENT_ATTRIBUTE);
         addIssue(issue);
-    } else if (parentComponent) {
+    } else if (parentComponent && (!mParsing1XVersion || !encapsulationId.empty())) {
         parentComponent->setEncapsulationId(encapsulationId);
     }
 
@@ -1477,7 +1488,7 @@ ComponentPtr Parser::ParserImpl::loadComponentRef(const ModelPtr &model, const X
     while (childComponentNode) {
         ComponentPtr childComponent = nullptr;
         if (parseNode(childComponentNode, "component_ref")) {
-            childComponent = loadComponentRef(model, childComponentNode, usedNames);
+            childComponent = loadComponentRef(model, childComponentNode, usedNames, true);
         } else if (childComponentNode->isText()) {
             const std::string textNode = childComponentNode->convertToString();
             // Ignore whitespace when parsing.
@@ -1514,17 +1525,24 @@ ComponentPtr Parser::ParserImpl::loadComponentRef(const ModelPtr &model, const X
     return parentComponent;
 }
 
-void Parser::ParserImpl::loadEncapsulation(const ModelPtr &model, const XmlNodePtr &node)
+void Parser::ParserImpl::loadEncapsulation(const ModelPtr &model, const XmlNodePtr &node, NameList &usedNames)
 {
-    NameList usedNames;
     XmlNodePtr componentRefNode = node->firstChild();
     while (componentRefNode != nullptr) {
         ComponentPtr parentComponent = nullptr;
+        ComponentPtr formerParent = nullptr;
         std::string encapsulationId;
         bool haveComponentRef = false;
         if (parseNode(componentRefNode, "component_ref")) {
             haveComponentRef = true;
-            parentComponent = loadComponentRef(model, componentRefNode, usedNames);
+            if (mParsing1XVersion) {
+                // The component may already have been encapsulated by an earlier component_ref tree or group.
+                auto existingComponent = model->component(componentRefNode->attribute("component"));
+                if (existingComponent != nullptr) {
+                    formerParent = std::dynamic_pointer_cast<Component>(existingComponent->parent());
+                }
+            }
+            parentComponent = loadComponentRef(model, componentRefNode, usedNames, false);
         } else if (componentRefNode->isText()) {
             const std::string textNode = componentRefNode->convertToString();
             // Ignore whitespace when parsing.
@@ -1553,7 +1571,12 @@ void Parser::ParserImpl::loadEncapsulation(const ModelPtr &model, const XmlNodeP
 
         // Add the parentComponent to the model with its child(ren) encapsulated.
         if (parentComponent) {
-            model->addComponent(parentComponent);
+            if ((formerParent != nullptr) && (formerParent != parentComponent) && !formerParent->hasAncestor(parentComponent)) {
+                // Put the component back where an earlier component_ref tree or group placed it.
+                formerParent->addComponent(parentComponent);
+            } else {
+                model->addComponent(parentComponent);
+            }
             if (parentComponent->componentCount() == 0) {
                 auto issue = Issue::IssueImpl::create();
                 issue->mPimpl->setDescription("Encapsulation in model '" + model->name() + "' specifies '" + parentComponent->name() + "' as a parent component_ref but it does not have any children.");
